@@ -988,3 +988,29 @@ def reaches(fn, a, b):
         seen.add(x)
         work += [t for _, t in fn.succs(x)]
     return False
+
+
+def bypass_path(fn, pred, start=None):
+    """Must-pass-through: is the normal exit reachable from `start` (default: entry) along CFG edges
+    without executing an event that satisfies pred?  Returns the list of blocks of one such path, or
+    None when every path passes through such an event.  (Block-granular: a block containing a matching
+    event counts as passing; callers that need 'before position X' use precedes_on_all_paths.)"""
+    hit = set(b for b, i, e in fn.all_events() if pred(e))
+    s0 = fn.entry if start is None else start
+    prev = {s0: None}
+    work = [s0]
+    while work:
+        b = work.pop()
+        if b in hit:
+            continue
+        if b == fn.exit:
+            path = []
+            while b is not None:
+                path.append(b)
+                b = prev[b]
+            return path[::-1]
+        for _, t in fn.succs(b):
+            if t not in prev:
+                prev[t] = b
+                work.append(t)
+    return None
